@@ -386,11 +386,6 @@ fn probes(r: &mut Rng, z: &Zone, sp: &Spec) -> Vec<(Labels, u16)> {
 
 fn sorted(z: &Zone) -> SortedRecords<N, D> { let c = Class::from_int(z.class); SortedRecords::<N, D>::from_iter(z.recs.iter().map(|r| mk_record(r, c))) }
 
-fn case_recs(s: &SortedRecords<N, D>) -> String {
-    let v: Vec<String> = s.iter().map(|r| format!("{}/{}", hex(r.owner().as_slice()), r.rtype().to_int())).collect();
-    v.join(" ")
-}
-
 fn case_recs_t(s: &SortedRecords<N, D>) -> String {
     let v: Vec<String> = s.iter().map(|r| {
         let min = if let ZoneRecordData::Soa(soa) = r.data() { soa.minimum().as_secs() } else { 0 };
